@@ -32,3 +32,16 @@ func SignRandom(data []byte, priv glow.PrivateKey) glow.Signature {
 	s.FillBytes(sig[32:])
 	return sig
 }
+
+// Malleate returns the twin (r, n-s) of an ECDSA signature. It verifies under plain ECDSA, but the
+// code base only accepts the canonical low-s form, so the twin of a signature made by glow.Sign
+// must be refused: otherwise anyone who sees a report can produce a second, different datagram for it.
+func Malleate(sig glow.Signature) glow.Signature {
+	n := crypto.S256().Params().N
+	s := new(big.Int).SetBytes(sig[32:])
+	s = new(big.Int).Sub(n, s)
+	var out glow.Signature
+	copy(out[:32], sig[:32])
+	s.FillBytes(out[32:])
+	return out
+}
